@@ -130,6 +130,14 @@ INT_HPS = {"batch_size", "learn_step", "policy_freq", "update_epochs"}
 LEARN_ALGOS = ("DQN", "Rainbow DQN", "CQN", "DDPG", "TD3", "NeuralUCB", "NeuralTS")
 
 
+def expected_lr_name(algo, opt_name):
+    """which learning-rate attribute an optimizer is built with in the algorithm's source (ground truth that does
+    not go through the registry's own name inference)"""
+    if algo in LR2:
+        return "lr_critic" if "critic" in opt_name else "lr_actor" if "actor" in opt_name else None
+    return "lr"
+
+
 def lr_names(algo):
     return ["lr_actor", "lr_critic"] if algo in LR2 else ["lr"]
 
@@ -318,7 +326,7 @@ class C06(vlib.Driver):
                     else:
                         s = rng.randrange(size)
                         d = rng.choice([i for i in range(size) if i != s])
-                        ops.append(["clone", s, d])
+                        ops.append([rng.choice(["clone", "clone", "loadinto", "loadnew"]), s, d])
                 cases.append({"kind": "pop", "algo": algo, "size": size, "hp": hp, "order": names, "ops": ops,
                               "init": self.random_init(algo, hp, rng) if j else {},
                               "build": "classmethod" if j % 4 == 1 else "create_population"})
@@ -331,6 +339,29 @@ class C06(vlib.Driver):
                     ops = ops[:1] + [["learn", 0, 11], ["learn", 1, 12]] + ops[1:] + [["other", 0, "arch", 5], ["learn", 0, 13], ["learn", 1, 14]]
                 cases.append({"kind": "pop", "algo": algo, "size": 2, "hp": {n: default_par(n) for n in names},
                               "order": names, "ops": ops, "init": {}})
+            # checkpoints: both members mutate the same hyperparameter differently, member 0 is saved and restored in
+            # place over member 1 (and later as a new member 0), then the hyperparameter is mutated again: the base must
+            # be the RESTORED value (the registry with its cached values travels with the checkpoint)
+            names = lr_names(algo) + ["batch_size"]
+            for hi in (0, len(names) - 1):
+                ops = [["one", 0, hi, 0.75], ["one", 1, hi, 0.25], ["loadinto", 0, 1], ["round", [[hi, 0.75], [hi, 0.75]]],
+                       ["one", 1, hi, 0.25], ["loadnew", 1, 0], ["round", [[hi, 0.25], [len(names) - 1 - hi, 0.75]]],
+                       ["clone", 0, 1], ["loadinto", 1, 0], ["round", [[hi, 0.75], [hi, 0.25]]]]
+                cases.append({"kind": "pop", "algo": algo, "size": 2, "hp": {n: default_par(n) for n in names},
+                              "order": names, "ops": ops, "init": {}})
+            # several learning rates with EQUAL values (distinct float objects, or one object used twice), and
+            # batch_size == learn_step: every optimizer must still follow the rate its network is trained with
+            if algo in LR2:
+                names = ["lr_actor", "lr_critic", "batch_size", "learn_step"]
+                for objects in ("distinct", "same"):
+                    for build in ("create_population", "classmethod"):
+                        ops = [["round", [[1, 0.75], [0, 0.75]]], ["round", [[0, 0.25], [1, 0.25]]], ["other", 0, "arch", 3],
+                               ["round", [[2, 0.75], [3, 0.75]]], ["clone", 0, 1], ["round", [[1, 0.25], [0, 0.75]]]]
+                        if algo in LEARN_ALGOS:
+                            ops = ops[:2] + [["learn", 0, 21], ["learn", 1, 22]] + ops[2:]
+                        cases.append({"kind": "pop", "algo": algo, "size": 2, "hp": {n: default_par(n) for n in names},
+                                      "order": names, "ops": ops, "init": {"BATCH_SIZE": 8, "LEARN_STEP": 8},
+                                      "equal_lrs": {"value": 0.001, "objects": objects}, "build": build})
         # no configuration at all: the label is "None" and nothing changes
         for algo in (["DQN", "TD3", "IPPO"] if quick else ALGOS):
             cases.append({"kind": "pop", "algo": algo, "size": 2, "hp": {}, "order": [], "ops": [["round", []], ["round", []]], "init": {}})
@@ -433,6 +464,13 @@ class C06(vlib.Driver):
                 "GAE_LAMBDA": 0.95, "ACTION_STD_INIT": 0.6, "CLIP_COEF": 0.2, "ENT_COEF": 0.01, "VF_COEF": 0.5,
                 "MAX_GRAD_NORM": 0.5, "TARGET_KL": None, "UPDATE_EPOCHS": 1, "SHARE_ENCODERS": bool(case.get("share", True))}
         INIT.update(case.get("init", {}))
+        if case.get("equal_lrs") and algo in LR2:
+            # the two learning rates have the SAME value: as distinct float objects (parsed from a file) or as one
+            # object (one literal / one variable used twice) — object identity is lost in JSON, so it is rebuilt here
+            v = float(repr(float(case["equal_lrs"]["value"])))
+            INIT["LR_ACTOR"] = v
+            INIT["LR_CRITIC"] = v if case["equal_lrs"]["objects"] == "same" else float(repr(v))
+            assert (INIT["LR_ACTOR"] is INIT["LR_CRITIC"]) == (case["equal_lrs"]["objects"] == "same")
         if algo in ("DQN", "Rainbow DQN", "CQN", "PPO", "NeuralUCB", "NeuralTS"):
             o, a = obs, dact
         elif algo in ("DDPG", "TD3"):
@@ -482,7 +520,7 @@ class C06(vlib.Driver):
         from agilerl.hpo.mutation import Mutations
         pop = self.build_pop(case)
         muts = Mutations(no_mutation=0, architecture=0, new_layer_prob=0, parameters=0, activation=0, rl_hp=1, rand_seed=0)
-        names = sorted(set(case["order"]) | {c.lr for a in pop for c in a.registry.optimizers}
+        names = sorted(set(case["order"]) | set(lr_names(case["algo"])) | {c.lr for a in pop for c in a.registry.optimizers}
                        | {getattr(a, c.name).lr_name for a in pop for c in a.registry.optimizers})
         ncfg = len(case["order"])
         obs0 = [self.observe(a, names) for a in pop]
@@ -497,6 +535,18 @@ class C06(vlib.Driver):
                 with Scripted(perms=[op[2]], rands=[op[3]], nconfig=ncfg) as s:
                     pop[op[1]] = muts.mutation([pop[op[1]]])[0]
                 s.assert_consumed()
+            elif op[0] in ("loadinto", "loadnew"):
+                import os, tempfile
+                fd, path = tempfile.mkstemp(suffix=".pt", dir=str(vlib.BUILD))
+                os.close(fd)
+                try:
+                    pop[op[1]].save_checkpoint(path)
+                    if op[0] == "loadinto":
+                        pop[op[2]].load_checkpoint(path)
+                    else:
+                        pop[op[2]] = type(pop[op[1]]).load(path)
+                finally:
+                    os.remove(path)
             elif op[0] == "learn":
                 stepped[-1] = self.learn_and_record(case["algo"], pop[op[1]], op[1], op[2])
             elif op[0] == "other":
@@ -576,7 +626,10 @@ class C06(vlib.Driver):
         def agent0(o):
             vals = "[" + "; ".join(f"({nid[n]}, {cf(o['vals'][n][0])})" for n in names) + "]"
             hps = "[" + "; ".join(f"Build_hpent {nid[n]} {coq_param(case['hp'][n], cf)} None" for n in case["order"]) + "]"
-            opts = "[" + "; ".join(f"Build_optim {nid[x['cfg_lr']]} {nid[x['lr_name']]} {cf(x['wlr'])} [{'; '.join(cf(g) for g in x['groups'])}]"
+            def en(x, k):   # the registry of the MODEL names the lr the source builds the optimizer with
+                e = expected_lr_name(case["algo"], x["name"])
+                return nid[e] if e in nid else nid[x[k]]
+            opts = "[" + "; ".join(f"Build_optim {en(x, 'cfg_lr')} {en(x, 'lr_name')} {cf(x['wlr'])} [{'; '.join(cf(g) for g in x['groups'])}]"
                                    for x in o["opts"]) + "]"
             return f"Build_agent {vals} {hps} {opts} None"
 
@@ -586,6 +639,10 @@ class C06(vlib.Driver):
                 ops.append("Round [" + "; ".join(f"({k}, {cf(u)})" for k, u in op[1]) + "]")
             elif op[0] == "one":
                 ops.append(f"MutOne {op[1]} {op[2]} {cf(op[3])}")
+            elif op[0] == "loadinto":
+                ops.append(f"LoadInto {op[1]} {op[2]}")
+            elif op[0] == "loadnew":
+                ops.append(f"LoadNew {op[1]} {op[2]}")
             elif op[0] == "learn":
                 ops.append(f"Learn {op[1]}")
             elif op[0] == "other":
@@ -604,7 +661,7 @@ class C06(vlib.Driver):
                 unknown -= set(range(len(op[1]))) if case["order"] else set(range(len(step)))
             elif op[0] == "one":
                 unknown.discard(op[1])
-            elif op[0] == "clone":
+            elif op[0] in ("clone", "loadinto", "loadnew"):
                 (unknown.add if op[1] in unknown else unknown.discard)(op[2])
             stp = "[" + "; ".join(f"({a}, {j}, [{'; '.join(cf(x) for x in lrs)}])" for a, j, lrs in st) + "]"
             steps.append("([" + "; ".join(agent_obs(dict(o, mut=None) if i in unknown else o) for i, o in enumerate(step)) + "], " + stp + ")")
@@ -680,12 +737,15 @@ class C06(vlib.Driver):
 
         def coherent(i, o, where):
             for x in o["opts"]:
-                want = o["vals"][x["lr_name"]][0]
+                # the attribute the algorithm's source builds this optimizer with — NOT the registry's own inference
+                ln = expected_lr_name(case["algo"], x["name"]) or x["lr_name"]
+                want = o["vals"][ln][0]
                 bad = [g for g in x["groups"] if g != want]
-                if bad or x["wlr"] != want:
-                    return Violation("lr-effective", f"pop:lr-not-effective:{algo}:{x['name']}",
-                                     f"{where}: individual {i}: attribute {x['lr_name']} = {want!r} but {x['name']} has wrapper lr {x['wlr']!r} "
-                                     f"and param-group lrs {x['groups']}")
+                if bad:
+                    mode = "same-lr-object:" if (case.get("equal_lrs") or {}).get("objects") == "same" else ""
+                    return Violation("lr-effective", f"pop:lr-not-effective:{mode}{algo}:{x['name']}",
+                                     f"{where}: individual {i}: attribute {ln} = {want!r} but {x['name']} (registered under "
+                                     f"{x['cfg_lr']!r}/{x['lr_name']!r}) has param-group lrs {x['groups']}")
             return None
 
         def done(v, t):
@@ -717,7 +777,7 @@ class C06(vlib.Driver):
                 touched = {i: d for i, d in enumerate(op[1])}
             elif op[0] == "one":
                 touched = {op[1]: [op[2], op[3]]}
-            elif op[0] == "clone":
+            elif op[0] in ("clone", "loadinto", "loadnew"):
                 src = {op[2]: op[1]}
             for i, (b, a) in enumerate(zip(prev, after)):
                 ref = prev[src[i]] if i in src else b
@@ -747,12 +807,13 @@ class C06(vlib.Driver):
                     if others:
                         return done(Violation("exactly-one", f"pop:other-hp-changed:{algo}", f"{where}: individual {i}: mutated {n!r} but {others} changed too"), t)
                     for xb, xa in zip(ref["opts"], a["opts"]):
-                        if xa["lr_name"] != n and (xa["groups"] != xb["groups"] or xa["wlr"] != xb["wlr"]):
+                        if (expected_lr_name(case["algo"], xa["name"]) or xa["lr_name"]) != n and xa["groups"] != xb["groups"]:
                             return done(Violation("exactly-one", f"pop:other-optimizer-changed:{algo}:{xa['name']}",
                                                   f"{where}: individual {i}: mutated {n!r} but {xa['name']} lr changed {xb['groups']} -> {xa['groups']}"), t)
                 else:
-                    if a["vals"] != ref["vals"] or [(x["wlr"], x["groups"]) for x in a["opts"]] != [(x["wlr"], x["groups"]) for x in ref["opts"]]:
-                        what = ("clone differs from its source" if i in src else
+                    if a["vals"] != ref["vals"] or [x["groups"] for x in a["opts"]] != [x["groups"] for x in ref["opts"]] \
+                            or (i in src and a["mut"] != ref["mut"]):
+                        what = (f"{op[0]} result differs from its source" if i in src else
                                 f"{op[2]} mutation moved hyperparameters / learning rates" if (op[0] == "other" and i == op[1]) else
                                 "individual that was not mutated changed")
                         return done(Violation("other-agents", f"pop:other-agent-changed:{algo}", f"{where}: individual {i}: {what}: {ref['vals']} -> {a['vals']}"), t)
@@ -824,6 +885,8 @@ class C06(vlib.Driver):
         if case["kind"] == "pop":
             labs += [f"algo={case['algo']}", f"pop-size={case['size']}", f"n-ops={len(case['ops'])}", f"built-by={case.get('build', 'create_population')}"]
             labs += [f"op={op[0]}" for op in case["ops"]]
+            if case.get("equal_lrs"):
+                labs.append(f"equal-lrs={case['equal_lrs']['objects']}-objects")
             if not case["order"]:
                 labs.append("no-hp-config")
             if obs["obs0"]:
